@@ -161,6 +161,27 @@ def builtin_tables(shadow_driven=False):
             t.cell("str_concat.len", "ccl", [s, u], "str_concat", post=lambda r: len(r))
     out.append(t)
 
+    # strings with bytes >= 0x80 (UTF-8 text): char_at yields the byte value 0..255 (docs/STDLIB.md: "ASCII value", and every
+    # engine's own helper returns an unsigned char), str_length counts bytes.  Added after a seeded change that made the
+    # compiled char_at sign-extend such bytes.
+    t = _Table("bt_highbytes")
+    t.fn("hca", [("s", "string"), ("i", "int")], "int", "(char_at s i)")
+    t.fn("hsl", [("s", "string")], "int", "(str_length s)")
+    t.fn("hge", [("s", "string"), ("i", "int")], "bool", "(>= (char_at s i) 128)")
+    t.fn("heq", [("s", "string"), ("u", "string")], "bool", "(== s u)")
+    t.fn("hcl", [("s", "string"), ("u", "string")], "int", "(str_length (+ s u))")
+    hs = ["\u00e9", "a\u00e9b", "\u20ac", "x\u00ff", "\u00f1\u00f1", "\U0001F600", "\u0080", "A\u07ffZ"]
+    for h in hs:
+        hb = h.encode("utf-8")
+        t.cell("str_length.bytes", "hsl", [h], "str_length")
+        for i in range(len(hb)):
+            t.cell("char_at.highbyte", "hca", [h, i], "char_at", bargs=[hb.decode("latin-1"), i])
+            t.cell("char_at.highbyte.cmp", "hge", [h, i], "char_at", bargs=[hb.decode("latin-1"), i], post=lambda r: r >= 128)
+        for u in hs[:4]:
+            t.cell("string==.highbyte", "heq", [h, u], "str_equals")
+            t.cell("str_concat.len.highbyte", "hcl", [h, u], "str_concat", bargs=[hb.decode("latin-1"), u.encode("utf-8").decode("latin-1")], post=lambda r: len(r))
+    out.append(t)
+
     res = []
     for t in out:
         text, exp = t.text(shadow_driven)
